@@ -4,6 +4,7 @@ import (
 	"database/sql"
 	"fmt"
 	"sort"
+	"strings"
 
 	_ "github.com/glebarez/go-sqlite"
 
@@ -38,6 +39,9 @@ func recHarness(name string, threads, inserts, batch int, explicitFlush bool, bo
 		Bounds:    bounds,
 		Horizon:   40000,
 		OwnPanics: true,
+		// a schedule costs ~10 ms with SQLite underneath: only the recorder's
+		// mutex operations are scheduling points here
+		NoStmtPoints: true,
 		Body: func() {
 			*st = recState{total: threads * inserts}
 			recSeq++
@@ -107,9 +111,124 @@ func recHarness(name string, threads, inserts, batch int, explicitFlush bool, bo
 	}
 }
 
+// recLocEntry has an interned location column.
+type recLocEntry struct {
+	Who   int
+	Seq   int
+	Where string `akita_data:"location"`
+}
+
+// fakeHarness is recHarness over the in-memory back end of fakesql.go, with
+// every statement of InsertData / Flush / flushLocationTable / Close a
+// scheduling point, so that unsynchronised accesses interleave too. With
+// locations, thread t's k-th entry carries the string L<(t+k) mod 2>.
+func fakeHarness(name string, threads, inserts, batch int, explicitFlush, locations bool, bounds []int) *harness {
+	var fdb *fakeDB
+	return &harness{
+		Name:          name,
+		MapDescending: strings.HasSuffix(name, "-desc"),
+		Bounds:    bounds,
+		Horizon:   40000,
+		OwnPanics: true,
+		Body: func() {
+			var db *sql.DB
+			db, fdb = newFakeDB(name)
+			rec := datarecording.NewDataRecorderWithDB(db)
+			if locations {
+				rec.CreateTable("t", recLocEntry{})
+			} else {
+				rec.CreateTable("t", recEntry{})
+			}
+			datarecording.VerifSetBatchSize(rec, batch)
+			for t := 0; t < threads; t++ {
+				t := t
+				vsched.Go(func() {
+					for k := 0; k < inserts; k++ {
+						if locations {
+							rec.InsertData("t", recLocEntry{Who: t, Seq: k, Where: fmt.Sprintf("L%d", (t+k)%2)})
+						} else {
+							rec.InsertData("t", recEntry{Who: t, Seq: k})
+						}
+					}
+					if explicitFlush && t == 0 {
+						rec.Flush()
+					}
+				})
+			}
+			vsched.JoinAll()
+			rec.Flush()
+			db.Close()
+		},
+		Check: func(x *vsched.Exec) (string, []lib.Problem) {
+			if x.Panic != "" {
+				return "panic", []lib.Problem{{Key: "recorder:concurrent:panic", What: name + ": " + x.Panic}}
+			}
+			var probs []lib.Problem
+			if fdb.inTx {
+				probs = append(probs, lib.Problem{Key: "recorder:concurrent:transaction-left-open", What: name + ": the last transaction was never committed"})
+			}
+			// location dictionary: one-to-one
+			byID, byStr := map[int64]string{}, map[string]int64{}
+			for _, r := range fdb.tables["location"] {
+				id, _ := r[0].(int64)
+				str, _ := r[1].(string)
+				if old, dup := byID[id]; dup {
+					probs = append(probs, lib.Problem{Key: "recorder:concurrent:location-id-reused", What: fmt.Sprintf("%s: location id %d stands for %q and %q (location rows %v)", name, id, old, str, fdb.tables["location"])})
+				}
+				if old, dup := byStr[str]; dup {
+					probs = append(probs, lib.Problem{Key: "recorder:concurrent:location-interned-twice", What: fmt.Sprintf("%s: location %q has ids %d and %d (location rows %v)", name, str, old, id, fdb.tables["location"])})
+				}
+				byID[id], byStr[str] = str, id
+			}
+			seen := map[string]int{}
+			for _, r := range fdb.tables["t"] {
+				who, _ := r[0].(int64)
+				seq, _ := r[1].(int64)
+				seen[fmt.Sprintf("%d.%d", who, seq)]++
+				if locations {
+					id, _ := r[2].(int64)
+					want := fmt.Sprintf("L%d", (who+seq)%2)
+					if got, ok := byID[id]; !ok || got != want {
+						probs = append(probs, lib.Problem{Key: "recorder:concurrent:location-value-changed", What: fmt.Sprintf("%s: entry %d.%d was inserted with location %q and is stored with id %d = %q (location rows %v)", name, who, seq, want, id, got, fdb.tables["location"])})
+					}
+				}
+			}
+			for t := 0; t < threads; t++ {
+				for k := 0; k < inserts; k++ {
+					key := fmt.Sprintf("%d.%d", t, k)
+					switch n := seen[key]; {
+					case n == 0:
+						probs = append(probs, lib.Problem{Key: "recorder:concurrent:entry-lost", What: fmt.Sprintf("%s: entry %s inserted before the final Flush is not in the database (rows %v)", name, key, fdb.tables["t"])})
+					case n > 1:
+						probs = append(probs, lib.Problem{Key: "recorder:concurrent:entry-duplicated", What: fmt.Sprintf("%s: entry %s is stored %d times (rows %v)", name, key, n, fdb.tables["t"])})
+					}
+				}
+			}
+			tx := 0
+			for _, l := range fdb.log {
+				if l == "BEGIN" {
+					tx++
+				}
+			}
+			return fmt.Sprintf("%s rows%d tx%d loc%d", name, len(fdb.tables["t"]), tx, len(fdb.tables["location"])), probs
+		},
+	}
+}
+
 func c35Harnesses(c *lib.Ctx) []*harness {
 	d := lib.Pick(c, 2, 3)
 	return []*harness{
+		fakeHarness("stmt-2x1-batch2", 2, 1, 2, false, false, []int{0, 1, d}),
+		fakeHarness("stmt-2x2-batch2", 2, 2, 2, false, false, []int{0, 1, d}),
+		fakeHarness("stmt-2x2-batch3", 2, 2, 3, false, false, []int{0, 1, d}),
+		fakeHarness("stmt-2x1-batch100-flush", 2, 1, 100, true, false, []int{0, 1, d}),
+		fakeHarness("stmt-2x2-batch100-flush", 2, 2, 100, true, false, []int{0, 1, d}),
+		fakeHarness("stmt-3x1-batch2", 3, 1, 2, false, false, []int{0, 1, 2}),
+		fakeHarness("stmt-loc-2x2-batch2", 2, 2, 2, false, true, []int{0, 1, d}),
+		fakeHarness("stmt-loc-2x2-batch100-flush", 2, 2, 100, true, true, []int{0, 1, d}),
+		// the recorder ranges over its table map: the other iteration order
+		fakeHarness("stmt-loc-2x2-batch2-desc", 2, 2, 2, false, true, []int{0, 1, d}),
+		fakeHarness("stmt-loc-2x1-batch100-flush-desc", 2, 1, 100, true, true, []int{0, 1, d}),
 		recHarness("2x1-batch2", 2, 1, 2, false, []int{0, 1, 2, -1}),
 		recHarness("2x2-batch2", 2, 2, 2, false, []int{0, 1, d}),
 		recHarness("2x2-batch3", 2, 2, 3, false, []int{0, 1, d}),
@@ -123,10 +242,10 @@ func init() {
 	lib.Register(&lib.Check{
 		ID:    "C35",
 		Level: "model_checking",
-		Rule: "concurrent half (the sequential half is run first by bin/vcheck and its coverage is nested under first_half): stateless DFS over goroutine interleavings (iterative preemption bounds 0,1,2; unbounded for the 2x1 harnesses; 3 in thorough) of 2-3 goroutines x 1-2 InsertData calls on one real data recorder over an in-memory SQLite database, batch size 2/3 (automatic flush racing with inserts, verif hook VerifSetBatchSize) or an explicit Flush from one goroutine, followed by a final Flush and a read-back with database/sql. Oracle per schedule: every inserted entry is stored exactly once; no panic, no SQL error, no deadlock.",
-		Assumptions: []string{"scheduling points at the recorder's mutex operations; database/sql and the SQLite driver run uncontrolled underneath (they complete synchronously for the calling goroutine)"},
+		Rule: "concurrent half (the sequential half is run first by bin/vcheck and its coverage is nested under first_half): stateless DFS over goroutine interleavings (iterative preemption bounds 0,1,2; 3 in thorough) of 2-3 goroutines x 1-2 InsertData calls on one real data recorder, batch size 2/3 (automatic flush racing with inserts, verif hook VerifSetBatchSize) or an explicit Flush from one goroutine, followed by a final Flush. Two harness families: (a) 'stmt-*' over an in-memory database/sql back end (fakesql.go: the statements the recorder issues, SQLite's two transaction rules), where every statement of InsertData/Flush/flushLocationTable/Close and every mutex operation is a scheduling point (so unsynchronised accesses interleave), with and without an interned location column, the recorder's table map ranged in ascending or ('-desc') descending order; (b) the same programs over real in-memory SQLite with scheduling points at the mutex operations only (bounds 0,1,2 and unbounded for the 2x1 harnesses), read back with database/sql. Oracle per schedule: every inserted entry is stored exactly once, its location id resolves to the inserted string, the location dictionary is one-to-one, the last transaction is committed; no panic, no SQL error, no deadlock.",
+		Assumptions: []string{"database/sql (and, in family b, the SQLite driver) run uncontrolled underneath: they complete synchronously for the calling goroutine", "family (a) replaces SQLite by an in-memory driver that accepts what the recorder issues; family (b) is the conformance run of the same programs against real SQLite", "sequentially consistent memory: word-level data races are outside the exploration"},
 		Sharded:     true,
-		MaxWorkers:  6,
+		MaxWorkers:  14,
 		MinOutcomes: 3,
 		Run:         func(c *lib.Ctx) { runSharded(c, c35Harnesses(c)) },
 		Replay:      schedReplay(c35Harnesses),
